@@ -3,9 +3,9 @@ import PersimVerif.Model.Approx
 /-!
   driver commands for C08 (model executed at `Rat`, exact):
 
-    pl.approx <dgms> <hom_deg> <start|none> <stop|none> <num_steps>   → values matrix | `empty` | err
+    pl.approx <dgms> <hom_deg> <start|none> <stop|none> <num_steps>   → values matrix (one zero row when no bar is visible) | err
     pl.transform <dgms> <hom_deg> <start|none> <stop|none> <num_steps> <flatten> <fit>
-                                                                      → matrix | flat list | `empty` | err
+                                                                      → matrix | flat list | err
     pl.vectorize <cps> <start|none> <stop|none> <num_steps>           → matrix | err
     pl.death <dgms> <hom_deg>                                         → list (with `inf`) | err
     pl.lambda.grid <bars> <start> <stop> <num_steps>                  → TRUE landscape at the nodes
@@ -26,9 +26,9 @@ def errName : Err → String
   | .noDepths => "IndexError"
   | .startAfterStop => "ValueError"
   | .notImplemented => "NotImplementedError"
+  | .keyError => "KeyError"
 
 def ofValues : Values Rat → Val
-  | .empty => .str "empty"
   | .mat rows => ofRatMat rows
 
 def optDgms? : Val → Option (List (Dgm Rat)) := listOf? (dgmOf? optRat?)
@@ -47,7 +47,7 @@ def handle : Handler
     | .ok v => pure (ofValues v)
     | .error x => pure (err (errName x))
   | "pl.transform", [d, h, s, e, n, fl, ft] => do
-    let X ← listOf? ratDgm? d
+    let X ← optDgms? d
     let hd ← asNat? h
     let start ← optOf? asRat? s
     let stop ← optOf? asRat? e
